@@ -58,18 +58,19 @@ type issued struct {
 }
 
 type world struct {
-	announced []simchain.Announce // confirmed-transaction announcements of all client sessions, in order
-	c02prev map[chainhash.Hash]int // C02 wallet level: credits per recorded transaction at the previous synchronised point
-	beforeAttach func() // runs once inside open(), before SynchronizeRPC
-	env    *core.Env
-	p      *core.Plan
-	prop   string
-	node   *simchain.Node
-	client *simchain.Client
-	db     *faultdb.DB
-	dbPath string
-	w      *wallet.Wallet
-	params *chaincfg.Params
+	discDuringRescan map[chainhash.Hash]bool // blocks a reorg disconnected while the start-up rescan was running
+	announced        []simchain.Announce     // confirmed-transaction announcements of all client sessions, in order
+	c02prev          map[chainhash.Hash]int  // C02 wallet level: credits per recorded transaction at the previous synchronised point
+	beforeAttach     func()                  // runs once inside open(), before SynchronizeRPC
+	env              *core.Env
+	p                *core.Plan
+	prop             string
+	node             *simchain.Node
+	client           *simchain.Client
+	db               *faultdb.DB
+	dbPath           string
+	w                *wallet.Wallet
+	params           *chaincfg.Params
 
 	seed      []byte
 	root      *hdkeychain.ExtendedKey
@@ -567,7 +568,6 @@ func sortedStrings(m map[string]bool) []string {
 }
 
 func scriptEq(a, b []byte) bool { return bytes.Equal(a, b) }
-
 
 // spenderAnnouncedBeforeParent looks for the one inconsistency a transaction
 // store shows after it was told of a spender's confirmation while it still
